@@ -179,3 +179,19 @@ func Concrete(v any) bool { return true }
 func Fail(label string) { Assert(false, label) }
 
 func Sprint(a ...any) string { return fmt.Sprint(a...) }
+
+// Itoa / Ftoa render a number the way strconv does; the engine keeps the link to the
+// number so that the inverse parser is exact.
+func Itoa(n int) string { return strconv.Itoa(n) }
+func Ftoa(f float64) string { return strconv.FormatFloat(f, 'g', -1, 64) }
+func Trunc(f float64) float64 { return math.Trunc(f) }
+func IsNaN(f float64) bool { return f != f }
+func IsInf(f float64) bool { return math.IsInf(f, 0) }
+
+// SameBits: identical as IEEE values (NaN equals NaN, +0 differs from -0).
+func SameBits(a, b float64) bool {
+	if a != a && b != b {
+		return true
+	}
+	return math.Float64bits(a) == math.Float64bits(b)
+}
